@@ -40,11 +40,10 @@ pub struct Failure {
     pub detail: String,
 }
 
-fn stream_of(creqs: &[CReq]) -> Vec<u8> {
+pub fn stream_of(creqs: &[CReq]) -> Vec<u8> {
     let mut v = Vec::new();
     for c in creqs {
-        v.extend_from_slice(&c.bytes);
-        v.push(0);
+        v.extend_from_slice(&c.wire());
     }
     v
 }
@@ -54,7 +53,7 @@ fn after_request(creqs: &[CReq], at: usize) -> Vec<u8> {
     stream_of(&creqs[at..])
 }
 
-fn check_common(exp: &Expect, obs: &Obs, log: &SharedLog, mem: bool, variant: &str) -> Result<(), String> {
+pub fn check_common(exp: &Expect, obs: &Obs, log: &SharedLog, mem: bool, variant: &str) -> Result<(), String> {
     if obs.end == "panic" {
         return Err("the service panicked".into());
     }
@@ -162,7 +161,7 @@ pub fn run(args: &[String]) {
                     let chunks: Vec<Vec<u8>> = if seg == "whole" {
                         vec![whole.clone()]
                     } else {
-                        creqs.iter().map(|c| { let mut b = c.bytes.clone(); b.push(0); b }).collect()
+                        creqs.iter().map(|c| c.wire()).collect()
                     };
                     let up_tok = if end == "upgraded" { Some(creqs[at - 1].tok.clone()) } else { None };
                     let mut out_items = case["out"].clone();
@@ -188,7 +187,7 @@ pub fn run(args: &[String]) {
                         let obs = run_socket(addr, log, &chunks, if use_sentinel { Some(&sentinel_bytes) } else { None }, &stok, up_tok.as_deref());
                         if use_sentinel && end == "open" {
                             // the sentinel is one more request at the end of the sequence
-                            creqs.push(CReq { kind: "GenOk".into(), tok: stok.clone(), bytes: sentinel_bytes[..sentinel_bytes.len() - 1].to_vec(), method: "org.example.gen.Ping".into(), more: false, oneway: false, script: vec![] });
+                            creqs.push(CReq { kind: "GenOk".into(), tok: stok.clone(), bytes: sentinel_bytes[..sentinel_bytes.len() - 1].to_vec(), method: "org.example.gen.Ping".into(), more: false, oneway: false, script: vec![], raw_full: None });
                             out_items.as_array_mut().unwrap().push(json!({"req": creqs.len(), "cont": false, "err": "", "arg": "pong"}));
                             results.as_array_mut().unwrap().push(json!([]));
                         }
